@@ -166,6 +166,14 @@ pub fn seceq(ws: &[&str]) -> String {
             let y = $t::new(b.clone());
             let eq = x == y;
             let sym = y == x;
+            // every other spelling of the same question gives the same answer: !=, and equality of
+            // the collections core compares element-wise (slices with !=, Option, tuples)
+            let (x2, y2) = ($t::new(a.clone()), $t::new(b.clone()));
+            #[allow(clippy::nonminimal_bool)]
+            let others = [!(x != y), !(y != x), vec![$t::new(a.clone())] == vec![$t::new(b.clone())], [x2] == [y2], Some($t::new(a.clone())) == Some($t::new(b.clone())), ($t::new(a.clone()), 1u8) == ($t::new(b.clone()), 1u8)];
+            if others.iter().any(|o| *o != eq) {
+                return format!("eq-spellings-disagree eq={} others={:?}", eq as u8, others);
+            }
             let refl = x == $t::new(a.clone()) && y == $t::new(b.clone());
             if !refl {
                 return "not-reflexive".to_string();
